@@ -3,7 +3,7 @@ from tools.extract import Unit, Rw
 from tools.krun import Harness
 
 PROPERTY = "C15"
-PRELUDE = ["../common/base.rs", "prelude.rs", "repair_index_stubs.rs"]
+PRELUDE = ["../common/base.rs", "prelude.rs", "repair_index_stubs.rs", "repair_snapshots_stubs.rs", "hotcold_stubs.rs"]
 R_ERR = Rw("", "verr()", count=None, kind="err", optional=True, why="RusticError construction (kind/message/context dropped)")
 
 
@@ -117,6 +117,70 @@ UNITS += [
          ),
 ]
 
+RSNP = "crates/core/src/commands/repair/snapshots.rs"
+UNITS += [
+    Unit(name="ModifierChange", file=MOD, kind="type", anchor="pub enum ModifierChange {", rewrites=[R_ATTRS]),
+    # dry run of `repair snapshots`: everything after the append-only guard; every storage write/removal is an effectful
+    # stub that REQUIRES !dry_run, the tree modifier must be created with the command's flag
+    Unit(name="repair_snapshots_dry_run", file=RSNP, kind="block", within="pub(crate) fn repair_snapshots<S: IndexedFull>(",
+         anchor="let mut state = RepairState::new(opts, repo.index());", block_end="@fn_end",
+         block_sig="fn repair_snapshots_dry_run(repo: &VRepo, be: &VBe, config_file: &VConfig, opts: &RepairSnapshotsOptions, snapshots: Vec<SnapS>, dry_run: bool) -> (r: RusticResult<()>)",
+         block_tail="",
+         functions=["commands::repair::snapshots::repair_snapshots (dry run: whole body after the append-only guard)"],
+         rewrites=[
+             Rw("RepairState::new(opts, repo.index())", "RepairStateS::vnew(opts)", why="RepairState -> stub (the list of snapshots to delete is kept)"),
+             Rw(r"TreeModifier::new\(be, repo\.index\(\), config_file, (?P<d>[^)]*)\)\?", r"TreeModifierS::vnew(be, config_file, \g<d>)?", regex=True, why="TreeModifier::new -> stub carrying the dry-run flag it was given"),
+             Rw("for mut snap in snapshots {", "for s in it: snapshots.iter() { let mut snap = vclone_snap(s);", why="by-value iteration with mutation -> by reference + clone; Verus for-loop syntax"),
+             Rw("modifier.modify_tree(PathBuf::new(), snap.tree, &mut state)?", "modifier.vmodify_tree(snap.tree, &mut state, Ghost(dry_run))?", why="TreeModifier::modify_tree -> stub: REQUIRES a dry-run modifier in a dry run"),
+             Rw("_ = snap.set_tags(opts.tag.clone());", "snap.vset_tags(opts);", why="tag handling (strings) -> stub with frame"),
+             Rw("be.save_file(&snap)?", "be.vsave_snapshot(&snap, Ghost(dry_run))?", count=None, why="save_file of a snapshot -> effectful stub: REQUIRES !dry_run"),
+             Rw("modifier.finalize()?;", "modifier.vfinalize(Ghost(dry_run))?;", why="TreeModifier::finalize -> stub: REQUIRES a dry-run modifier in a dry run"),
+             Rw("for snap in modified_snapshots {", "for snap in it2: modified_snapshots.iter() {", why="Verus for-loop syntax; by reference"),
+             Rw(r"be\.delete_list\(\s*true,\s*state\.delete\.iter\(\),\s*(?P<p>repo\.progress_counter\([^)]*\)),\s*\)\?", r"be.vdelete_snapshots(&state.delete, \g<p>, Ghost(dry_run))?", regex=True,
+                why="delete_list of snapshot files -> effectful stub: REQUIRES !dry_run"),
+         ],
+         contract="\n    // (implicit obligations: the preconditions `!dry_run` of every stub that writes to or removes from the repository)\n",
+         loops={1: "\n        invariant dry_run ==> modified_snapshots@.len() == 0, dry_run ==> modifier.dry_run,\n",
+                2: "\n        invariant dry_run ==> modified_snapshots@.len() == 0,\n"},
+         optional_loops=True),
+]
+
+HC = "crates/core/src/commands/repair/hotcold.rs"
+UNITS += [
+    # dry run of the hot/cold repair: the copies between the two parts are effectful stubs that REQUIRE !dry_run
+    Unit(name="hotcold_dry_run", file=HC, kind="block", within="pub(crate) fn correct_missing_files<S>(",
+         anchor="if !missing_cold.is_empty() {", block_end="@fn_end",
+         block_sig="fn hotcold_dry_run(repo: &VRepoH, repo_hot: &VBeH, file_type: FileTypeH, missing_hot: Vec<IdH>, missing_hot_size: u64, missing_cold: Vec<IdH>, missing_cold_size: u64, dry_run: bool) -> (r: RusticResult<()>)",
+         block_tail="",
+         functions=["commands::repair::hotcold::correct_missing_files (dry run: the two copy phases)"],
+         rewrites=[
+             Rw(r"repo\.progress_bytes\(&format!\([^;]*?\)\)", "repo.vprogress_bytes()", regex=True, count=None, why="progress bar with a formatted label -> stub"),
+             Rw(r"copy\((?P<f>\w+), file_type, (?P<a>[^,]+), (?P<b>[^,]+), &p\)\?", r"vcopy_files(\g<f>, file_type, \g<a>, \g<b>, &p, Ghost(dry_run))?", regex=True, count=None,
+                why="hotcold::copy (reads from one part, writes to the other) -> effectful stub: REQUIRES !dry_run"),
+             Rw("warm_up_wait(repo, file_type, missing_hot.iter().copied())?;", "vwarm_up_wait_h(repo, file_type, &missing_hot)?;", why="warm-up -> stub (no repository write: ASSUMED)"),
+         ],
+         contract="\n    // (implicit obligations: the preconditions `!dry_run` of the copy stubs)\n"),
+]
+
+RWR = "crates/core/src/commands/rewrite.rs"
+UNITS += [
+    # dry run of rewrite: process_snapshots (the only place rewrite touches snapshot files); the trees are written through
+    # the TreeModifier units above (Rewriter::new hands opts.dry_run to TreeModifier::new: not a unit)
+    Unit(name="rewrite_dry_run", file=RWR, anchor="fn process_snapshots<S: Open>(", ret_name="r",
+         functions=["commands::rewrite::process_snapshots (dry run)"],
+         rewrites=[
+             Rw("fn process_snapshots<S: Open>(", "fn process_snapshots(", sig=True, why="Repository<S> -> stub"),
+             Rw("repo: &Repository<S>,", "repo: &VRepo,", sig=True, why="Repository<S> -> stub"),
+             Rw("mut snapshots: Vec<SnapshotFile>,", "snapshots: Vec<SnapS>,", sig=True, why="SnapshotFile -> stub; the tag bookkeeping that needs `mut` is elided"),
+             Rw("-> RusticResult<Vec<SnapshotFile>>", "-> RusticResult<Vec<SnapS>>", sig=True, why="SnapshotFile -> stub"),
+             Rw(r"match \(&opts\.tags_rewritten, opts\.forget\) \{.*?\(None, true\) => \{\}\n        \}\n", "", regex=True, why="ELIDED: tag bookkeeping of the rewritten snapshots (closures over strings); no storage operation in it"),
+             Rw("repo.save_snapshots(snapshots.clone())?;", "repo.vsave_snapshots_d(&snapshots, Ghost(opts.dry_run))?;", why="Repository::save_snapshots -> effectful stub: REQUIRES !dry_run"),
+             Rw("let old_snap_ids: Vec<_> = snapshots.iter().map(|sn| sn.id).collect();", "let old_snap_ids = vsnapshot_ids_d(&snapshots);", why="iterator map/collect of the ids -> stub"),
+             Rw("repo.delete_snapshots(&old_snap_ids)?;", "repo.vdelete_snapshots_d(&old_snap_ids, Ghost(opts.dry_run))?;", why="Repository::delete_snapshots -> effectful stub: REQUIRES !dry_run"),
+         ],
+         contract="\n    // (implicit obligations: the preconditions `!dry_run` of the two stubs)\n"),
+]
+
 KANI = [
     Harness(M + "c15_dry_run_write_bytes", functions=[D + "write_bytes"], expect_stubs=1),
     Harness(M + "c15_dry_run_remove", functions=[D + "remove"], expect_stubs=1),
@@ -133,5 +197,5 @@ KANI_ASSUMPTIONS = [
 META = {"not_covered": [
     "closed-world claim over all public methods: the guard list is enumerated from the anchors; a new destructive entry point without a guard is invisible",
     "Repository::delete_key has no append-only guard (key files are not snapshot/index/pack files, so the statement does not cover it)",
-    "dry-run flags threaded through repair_*/rewrite/TreeModifier bodies beyond DryRunBackend",
+    "dry-run flag handed from Rewriter::new to TreeModifier::new (struct construction, not a unit); restore's dry run concerns the destination, not the repository",
 ]}
